@@ -332,6 +332,14 @@ def run(m, tier):
     from rules import one_roundtrip
     results.append(one_roundtrip.roundtrip_rule(m, "C19.R14"))
     results.append(one_roundtrip.block_structure_rule(m, "C19.R15"))
+    from sa.report import retag
+    from rules import C02 as _C02, reader_rules as _rr, reader_interp as _ri
+    results.append(retag(_C02.r6_inverse_map(m), "C19.R16", "the tokeniser shared with fparser2 (string_replace_map) expands nested "
+                         "placeholders per occurrence and its inverse is bounded and ordered: what process_item methods un-map is the "
+                         "text of the source (shared with C02.R6)"))
+    results.append(_rr.replace_map_table_rule(m, "C19.R17"))
+    results.append(_rr.rule_semicolon(m, "C19.R18"))
+    results.append(_ri.stream_rule(m, "C19.R19", tier))
     expl = ("Decides structural clauses of C19 over the statement classes of fparser.one: the literal keyword prefix each printer emits "
             "(lower-cased as the reader does) is a viable prefix of the class's own match regex (prefix viability on the sre parse "
             "tree); every block statement names an END class whose regex accepts the `END <blocktype> [name]` line that class prints; "
